@@ -376,6 +376,13 @@ func Main(checks map[string]*Check) {
 		ch.RacePass(c)
 		fmt.Printf("RACEPASS-EXECUTIONS %d\n", c.res.Evaluations)
 
+		// violations the pass itself found (observations of the concurrent executions that differ from the sequential
+		// ones) travel to the parent as lines
+		for _, v := range c.res.Violations {
+			b, _ := json.Marshal(map[string]string{"signature": v.Signature, "summary": v.Summary})
+			fmt.Printf("RACEPASS-VIOLATION %s\n", b)
+		}
+
 		return
 	}
 
@@ -893,6 +900,15 @@ func RunRacePass(c *Ctx) {
 	}
 
 	c.Count("race_pass_executions", n)
+
+	for _, line := range strings.Split(stdout.String(), "\n") {
+		if rest, ok := strings.CutPrefix(line, "RACEPASS-VIOLATION "); ok {
+			var v struct{ Signature, Summary string }
+			if json.Unmarshal([]byte(rest), &v) == nil && v.Signature != "" {
+				c.Violation(v.Signature, "free-running pass: "+v.Summary, map[string]any{"race_pass": true})
+			}
+		}
+	}
 
 	reports := strings.Split(out, "WARNING: DATA RACE")
 	if len(reports) > 1 {
